@@ -27,6 +27,8 @@ META = {
                    'a killed writer and corruption freedom live inside diskcache/SQLite and are outside this repository.',
     'not_decided': 'crash consistency / corruption after a killed writer (inside third-party diskcache + SQLite)',
     'assumptions': ['diskcache.Cache persists completed stores atomically (SQLite transaction per set)',
+                    'diskcache compares keys by their serialised form: 1 and numpy.int64(1) are different keys',
+                    'an object pickled to a worker process is finalised there when the task ends (CPython)',
                     'CPython calls __del__ when the last reference to the wrapper is dropped'],
 }
 
